@@ -195,6 +195,15 @@ class Evaluator:
             if isinstance(v, str):
                 return ("err", "parse")
             raise Undecided(f"parse of {v!r}")
+        if short == "split_once":
+            v = self.ev(args[0])
+            sep = self.ev(args[1])
+            if isinstance(v, str) and isinstance(sep, str):
+                if sep in v:
+                    a, b = v.split(sep, 1)
+                    return some(("tuple", (a, b)))
+                return NONE
+            raise Undecided(f"split_once of {v!r}")
         if short in ("trim",):
             v = self.ev(args[0])
             return v.strip() if isinstance(v, str) else v
